@@ -890,6 +890,10 @@ func c03AcrossVersion(dotu bool, maxpend, P int) Scenario {
 func c03Scenarios(tier string) []Scenario {
 	var out []Scenario
 	out = append(out, c03AcrossVersion(false, 0, 1), c03AcrossVersion(true, 2, 1))
+	// Tflush is a request too: flushes of flushes are each owed exactly one reply
+	for i, st := range []string{"flushflush2", "flushflush3", "twoflush"} {
+		out = append(out, c07Scenario(c07Params{Prop: "C03", Kind: []string{"read", "stat", "write"}[i], Stage: st, FlushMode: "none", Gated: true, Rel: "late", Maxpend: i % 3, Dotu: i%2 == 0, P: 1}))
+	}
 	out = append(out, c03QueueFile(5, 0, false), c03QueueFile(64, 2, true), c03QueueFile(300, 0, true), c03QueueFile(1000, 1, false))
 	if tier == "thorough" {
 		out = append(out, c03QueueFile(5000, 0, false))
